@@ -1,6 +1,7 @@
 import GfaModel.Cigar
 import GfaModel.CigarText
 import GfaModel.Geometry
+import GfaModel.Field
 /-
   The Gfa as a name-keyed store of records (gfapy/gfa.py, lines/{creators,destructors,finders}.py,
   line/common/{connection,disconnection,virtual_to_real,update_references,field_data}.py and the
@@ -30,14 +31,10 @@ structure Rec where
 def fld (r : Rec) (i : Nat) : String := r.fields.getD i ""
 
 def splitStr (sep : Char) (s : String) : List String :=
-  (Driver.splitOnC sep s.toList).map String.ofList
-where
-  Driver.splitOnC (sep : Char) : List Char → List (List Char)
-    | [] => [[]]
-    | c :: cs =>
-      match Driver.splitOnC sep cs with
-      | [] => [[]]
-      | f :: fs => if c = sep then [] :: f :: fs else (c :: f) :: fs
+  (Field.splitOn sep s.toList).map String.ofList
+
+def joinStr (sep : Char) (xs : List String) : String :=
+  String.ofList (Field.intercalate sep (xs.map String.toList))
 
 /-- "A+" ↦ ("A", plus) -/
 def splitOriented (s : String) : String × Orient :=
@@ -81,8 +78,8 @@ def Rec.segRefs (r : Rec) : List String :=
 /-- identifiers listed as items of a group -/
 def Rec.itemRefs (r : Rec) : List String :=
   match r.rt with
-  | .O => (splitStr ' ' (fld r 1)).map (fun s => (splitOriented s).1)
-  | .U => splitStr ' ' (fld r 1)
+  | .O => ((splitStr ' ' (fld r 1)).filter (· ≠ "")).map (fun s => (splitOriented s).1)
+  | .U => (splitStr ' ' (fld r 1)).filter (· ≠ "")
   | _ => []
 
 def Rec.linkOf (r : Rec) : Option Link :=
@@ -155,6 +152,7 @@ def virtLink (l : Link) : Rec :=
 /-- make sure a segment called `n` exists: a virtual `unknown` placeholder of that name is turned into a
     virtual segment; a name held by a real line of another type is a clash -/
 def ensureSeg (st : St) (n : String) : Except Err St :=
+  if n = "*" then .error .format else
   if (findSeg st n).isSome then .ok st else
   match st.lines.findIdx? (fun q => q.name = some n) with
   | none => .ok { st with lines := st.lines ++ [virtSeg st.ver n] }
@@ -253,7 +251,7 @@ def complOfStored (st : St) (l : Link) (i : Nat) : Bool :=
 
 /-- a link that is compatible with the stored line at index `i` -/
 def addLinkOnto (st : St) (r : Rec) (l : Link) (i : Nat) : Except Err St :=
-  if (st.lines.getD i default).virt then
+  if (st.lines.getD i default).virt ∧ (st.lines.getD i default).name = none then
     -- the real link replaces the placeholder
     (if nameFree st r then substitute st i r else .error .notUnique)
   else if complOfStored st l i then .ok st
@@ -372,7 +370,7 @@ def dropItems (gone : List String) (r : Rec) : Rec :=
   match r.rt with
   | .U =>
     let items := (splitStr ' ' (fld r 1)).filter (fun n => !gone.contains n)
-    { r with fields := [fld r 0, " ".intercalate items] ++ r.fields.drop 2 }
+    { r with fields := [fld r 0, joinStr ' ' items] ++ r.fields.drop 2 }
   | _ => r
 
 /-- remove the lines with the given indices together with all their dependants -/
